@@ -83,7 +83,7 @@ def walk(w, rnd, profile, steps, opts):
     for h in ("onDisconnection", "onPublish", "onMqttConnectionMade"):
         if rnd.random() < 0.8:
             do(w.set(a, h, 1))
-    gens = 1; fires = [0]
+    gens = 1; fires = [0]; cur_ka = [0]
     inbound_ids = [5, 6, 7]
     for _ in range(steps):
         p = w.p[a]; st = type(p.state).__name__; tr = w.t[a].phase
@@ -125,6 +125,7 @@ def walk(w, rnd, profile, steps, opts):
             ka = rnd.choice(opts.get("ka", [0, 0, 0, 2, 5]))
             if rnd.random() < 0.06:
                 ka = rnd.choice([-1, 65536, None])
+            cur_ka[0] = ka if isinstance(ka, int) and 0 < ka <= 65535 else 0
             do(w.connect(a, clientId=rnd.choice(["c", "client-é", "x" * 24]), keepalive=ka,
                          cleanStart=rnd.random() < opts.get("clean", 0.5), version=rnd.choice([3, 4, 4]), **kw))
         elif name == "connack":
@@ -174,7 +175,7 @@ def walk(w, rnd, profile, steps, opts):
                     fires[0] += 1; do(w.fire(dc))
         elif name == "idle":
             ps = W.clock.pending()
-            room = (ps[0].at - W.clock.now) if ps else 5000
+            room = (ps[0].at - W.clock.now) if ps else max(5000, 1536 * cur_ka[0])     # with nothing pending, more than a keepalive period may pass
             if room > 0:
                 do(w.idle(rnd.randint(1, room)))
         elif name == "lost":
@@ -240,7 +241,7 @@ def main():
     for p in ("pub", "sub", "both"):
         files[p] = open(os.path.join(outdir, p + ".ndjson"), "w"); idx[p] = []; lines[p] = 0
     for tid in range(1, n + 1):
-        prof = rnd.choice({"subs": ["sub", "both"], "retry": ["pub", "both", "both"], "qos2": ["pub", "both"], "persist": ["pub", "both"], "wrapsess": ["pub", "both"], "inbound": ["sub", "both"]}.get(fam, ["pub", "sub", "both", "both"]))
+        prof = rnd.choice({"subs": ["sub", "both"], "retry": ["pub", "both", "both"], "qos2": ["pub", "both"], "persist": ["pub", "both"], "wrapsess": ["pub", "both"], "wrapq2": ["pub", "both"], "inbound": ["sub", "both"]}.get(fam, ["pub", "sub", "both", "both"]))
         jit = random.Random(rnd.random()) if fam == "jitter" else None
         w = W.World(prof, len(idx[prof]) + 1, files[prof], jitter=jit, meta={"jitter": 1} if jit else None)
         opts = {"maxgen": 3, "clean": rnd.choice([0.0, 0.5, 1.0]), "wrap": fam == "wrap" or (fam == "mixed" and rnd.random() < 0.25)}
@@ -263,6 +264,9 @@ def main():
             opts.update(maxgen=4, react=True, wt={"lost": 1.2, "publish": 5, "subscribe": 2.5, "unsubscribe": 1.5, "ack": 8, "inbound": 4, "fire": 1.5, "set": 0.8}, ka=[0, 0, 2, 5])
         elif fam == "jitter":     # the library's own random retry jitter is left on (A4): only the automata judge these runs
             opts.update(maxgen=3, maxfires=16, drain=8, wt={"fire": 6, "publish": 5, "subscribe": 2, "unsubscribe": 1.5, "set": 1.5}, ka=[0, 0, 3])
+        elif fam == "wrapq2":     # QoS 2 exchanges with the identifier counter around the wrap
+            opts.update(maxgen=3, maxfires=12, drain=6, qos=[2, 2, 1], clean=rnd.choice([0.0, 0.5]), wrap=True,
+                        wt={"publish": 8, "fire": 2, "ack": 7, "lost": 0.6, "set": 1.0, "subscribe": 0.1, "unsubscribe": 0.1, "disconnect": 0.1}, ka=[0])
         elif fam == "subs":
             opts.update(maxgen=4, wt={"subscribe": 6, "unsubscribe": 5, "publish": 1, "lost": 1.2, "set": 2}, ka=[0])
         try:
